@@ -80,6 +80,14 @@ def exec_HEAP(t):
                 add(p[1], objs[p[2]] >> int(p[3]))
             elif k == 'X':
                 add(p[1], objs[p[2]][int(p[3])])
+            elif k == 'T':
+                st, sp, n = int(p[3]), int(p[4]), int(p[5])
+                stop = st + n * sp
+                v = objs[p[2]][slice(st, stop if stop >= 0 else None, sp)]
+                assert v.shape == (n,), 'slice shape %s' % (v.shape,)
+                add(p[1], v)
+            elif k == 'Y':
+                add(p[1], objs[p[2]][:, int(p[3])])
             elif k == 'W':
                 x = objs[p[1]]
                 vs = [pyval(frac(v)) for v in parse_list(p[2])]
@@ -190,7 +198,7 @@ def generate(tier, rng):
             nm = next(names)
             s = rng.random() < 0.6
             n = rng.randint(3 + int(s), 12); f = rng.randint(0, n - 2)
-            rows, cols = rng.choice([(0, 0), (0, 3), (2, 2), (2, 3)])
+            rows, cols = rng.choice([(0, 0), (0, 3), (0, 5), (0, 6), (2, 2), (2, 3), (3, 2)])
             live[nm] = (s, n, f, rows, cols)
             steps.append('N:%s:%s:%d:%d:%d:%d' % (nm, 's' if s else 'u', n, f, rows, cols))
             return nm
@@ -211,7 +219,7 @@ def generate(tier, rng):
             if len(live) >= 7:
                 kind = rng.choice(['W', 'I', 'G', 'R', 'F'])
             else:
-                kind = rng.choice(['N', 'K', 'C', 'L', 'V', 'A', 'P', 'B', 'H', 'X', 'W', 'W', 'I', 'I', 'G', 'G', 'R', 'F'])
+                kind = rng.choice(['N', 'K', 'C', 'L', 'V', 'A', 'P', 'B', 'H', 'X', 'T', 'T', 'Y', 'W', 'W', 'I', 'I', 'I', 'G', 'G', 'R', 'F'])
             src = rng.choice(list(live))
             o = live[src]
             if kind == 'N':
@@ -243,6 +251,21 @@ def generate(tier, rng):
                     continue
                 i = rng.randrange(o[3])
                 nm = next(names); live[nm] = (o[0], o[1], o[2], 0, o[4]); steps.append('X:%s:%s:%d' % (nm, src, i))
+            elif kind == 'T':
+                # strided / reversed slice of a 1-D object (possibly itself a view): a non-contiguous view
+                if o[3] != 0 or o[4] < 2:
+                    continue
+                sp = rng.choice([2, -1, -2, 1, 3, -3])
+                st = rng.randrange(o[4])
+                nmax = ((o[4] - 1 - st) // sp + 1) if sp > 0 else (st // (-sp) + 1)
+                n = rng.randint(1, nmax)
+                nm = next(names); live[nm] = (o[0], o[1], o[2], 0, n); steps.append('T:%s:%s:%d:%d:%d' % (nm, src, st, sp, n))
+            elif kind == 'Y':
+                # a column of a 2-D object: view with stride = number of columns
+                if o[3] < 2:
+                    continue
+                j = rng.randrange(o[4])
+                nm = next(names); live[nm] = (o[0], o[1], o[2], 0, o[3]); steps.append('Y:%s:%s:%d' % (nm, src, j))
             elif kind in ('W', 'F'):
                 steps.append('W:%s:%s' % (src, tok_list([tok_frac(v) for v in wvals(o, big=(kind == 'F'))])))
             elif kind == 'I':
